@@ -209,7 +209,7 @@ C10 = codec_check("C10", "C10", "model_checking",
 
 
 C13 = codec_check("C13", "C13", "model_checking", universes=("defaults", "defaults"),
-    rule="defaults universe: 65 (field type, default literal) pairs placed directly, in a nested required record, in an included record, two include levels deep and only-in-include; per record every subset of defaulted positions supplied (with a non-default value) or omitted, decoded from reference documents by the JSON, ROR2 and untyped-value readers and compared with the reference parse of the schema literal; constructor instances; every ordered pair of independently obtained instances (constructor / JSON decode / ROR2 decode) is checked for aliasing by mutating the first in place; states = (record, subset), transitions = decode calls; a class is (reader | maker pair, outcome)")
+    rule="defaults universe: 67 (field type, default literal) pairs placed directly, in a nested required record, in an included record, two include levels deep and only-in-include; per record every subset of defaulted positions supplied (with a non-default value) or omitted, decoded from reference documents by the JSON, ROR2 and untyped-value readers and compared with the reference parse of the schema literal; constructor instances; every ordered pair of independently obtained instances (constructor / JSON decode / ROR2 decode) is checked for aliasing by mutating the first in place; states = (record, subset), transitions = decode calls; a class is (reader | maker pair, outcome)")
 
 
 _C06_codec = codec_check("C06", "C06", "model_checking",
